@@ -304,7 +304,9 @@ func emitC11Shapes(out *Out) {
 		typ, field           string
 		wantStored           bool
 		tags                 []string
+		mayReject            bool // the document has no unique path for some node: rejecting it is right; if it is merklized the paths must agree
 	}
+	ctxShared := `{"@context":{"@version":1.1,"id":"@id","type":"@type","issuer":{"@id":"urn:v#issuer","@type":"@id"},"sub":{"@id":"urn:v#sub","@type":"@id"},"name":"urn:v#name","knows":{"@id":"urn:v#knows","@type":"@id"}}}`
 	ctxD8 := `{"@context":{"@version":1.1,"x":"urn:outer#x","p":"urn:v#p","T":{"@id":"urn:T","@context":{"x":"urn:inner#x"}}}}`
 	ctxArr := `{"@context":{"@version":1.1,"items":"urn:v#items","n":{"@id":"urn:v#n","@type":"http://www.w3.org/2001/XMLSchema#integer"},"A":{"@id":"urn:A","@context":{"m":"urn:a#m"}},"B":{"@id":"urn:B","@context":{"m":"urn:b#m"}}}}`
 	ctxAlias := `{"@context":{"@version":1.1,"id":"@id","type":"@type","name":"urn:v#name","T":{"@id":"urn:T","@context":{"z":"urn:v#z"}}}}`
@@ -312,6 +314,10 @@ func emitC11Shapes(out *Out) {
 	// lexicographic order of the type names, whatever order the document lists them in
 	ctxMulti := `{"@context":{"@version":1.1,"id":"@id","type":"@type","sub":"urn:v#sub","Person":{"@id":"urn:Person","@context":{"name":"urn:person#name","age":{"@id":"urn:person#age","@type":"http://www.w3.org/2001/XMLSchema#integer"}}},"Employee":{"@id":"urn:Employee","@context":{"name":"urn:employee#name","age":{"@id":"urn:employee#age","@type":"http://www.w3.org/2001/XMLSchema#integer"}}},"Agent":{"@id":"urn:Agent","@context":{"name":"urn:agent#name"}}}}`
 	for _, s := range []shape{
+		{name: "shared-node-issuer-is-subject", ctx: ctxShared, doc: `{"@context":"https://c","id":"urn:cred","issuer":"urn:alice","sub":{"id":"urn:alice","name":"A"}}`, path: "sub.name", wantStored: true, mayReject: true, tags: []string{"shape:shared-node"}},
+		{name: "shared-node-self-reference", ctx: ctxShared, doc: `{"@context":"https://c","id":"urn:cred","sub":{"id":"urn:alice","name":"A","knows":"urn:alice"}}`, path: "sub.name", wantStored: true, mayReject: true, tags: []string{"shape:shared-node"}},
+		{name: "shared-node-two-referrers", ctx: ctxShared, doc: `{"@context":"https://c","id":"urn:cred","sub":[{"id":"urn:a","knows":"urn:c"},{"id":"urn:b","knows":"urn:c"}],"issuer":{"id":"urn:c","name":"C"}}`, path: "issuer.name", wantStored: true, mayReject: true, tags: []string{"shape:shared-node"}},
+		{name: "shared-node-top-level-referenced", ctx: ctxShared, doc: `{"@context":"https://c","id":"urn:cred","name":"top","sub":{"id":"urn:alice","knows":"urn:cred"}}`, path: "name", wantStored: true, mayReject: true, tags: []string{"shape:shared-node"}},
 		{name: "multi-type-document-order-unsorted", ctx: ctxMulti, doc: `{"@context":"https://c","@type":["Person","Employee"],"name":"x","age":3}`, path: "name", wantStored: true, tags: []string{"shape:multi-type"}},
 		{name: "multi-type-document-order-sorted", ctx: ctxMulti, doc: `{"@context":"https://c","@type":["Employee","Person"],"name":"x","age":3}`, path: "name", wantStored: true, tags: []string{"shape:multi-type"}},
 		{name: "multi-type-typed-field", ctx: ctxMulti, doc: `{"@context":"https://c","type":["Person","Employee"],"name":"x","age":3}`, path: "age", wantStored: true, tags: []string{"shape:multi-type"}},
@@ -330,7 +336,10 @@ func emitC11Shapes(out *Out) {
 		var why []string
 		impl := J{}
 		if run.Err != nil {
-			why = append(why, "shape does not merklize: "+run.Err.Error())
+			if !s.mayReject {
+				why = append(why, "shape does not merklize: "+run.Err.Error())
+			}
+			impl["rejected"] = true
 		} else {
 			rp, err := run.Mz.ResolveDocPath(s.path)
 			impl["doc"] = pathPartsJ(rp, err)
